@@ -60,6 +60,22 @@ func main() {
 		os.Exit(cmdCheck(os.Args[2:]))
 	case "dump":
 		os.Exit(cmdDump(os.Args[2:]))
+	case "races":
+		L, db, err := loadAll("/repo", "/verif")
+		if err != nil {
+			fmt.Fprintln(os.Stderr, err)
+			os.Exit(2)
+		}
+		n := 0
+		rs, reach, entries := enumerateRaceSites(L, db)
+		fmt.Println(len(reach), "functions reachable from", len(entries), "goroutine entries")
+		for _, s := range rs {
+			n++
+			if !s.OK {
+				fmt.Printf("%-9s %-28s %-40s %s  [%s] in %s\n", s.Own, s.What, s.Desc, L.pos(s.In.Pos()), s.Why, shortKey(s.Fn.RelString(nil)))
+			}
+		}
+		fmt.Println(n, "sites")
 	case "frames":
 		L, db, err := loadAll("/repo", "/verif")
 		if err != nil {
@@ -222,6 +238,7 @@ var extraChecks = map[string][]func(*Loaded, *ContractDB, *Report){
 	"C12": {fileLoopObligations},
 	"C17": {frameObligations},
 	"C04": {determinismObligations},
+	"C16": {raceObligations},
 }
 
 func runDeductive(L *Loaded, db *ContractDB, rep *Report) {
